@@ -8,7 +8,8 @@ import CelmaVerif.Model.Interleave
   be the result under every complete schedule).  The model covers "simple" threads only: arguments
   of kind vec_str / list_str / vec_int (decimal tokens) / str / int / flag without checks,
   constraints, formats or cardinalities, used as `-k value` / `--long value` / `-f`.  For every
-  other thread the driver prints `t<k>=?` and the harness' own sequential run is the only oracle.
+  other thread (also: `help` threads and the `group` thread, whose handlers belong to the process-wide
+  `Groups` object) the driver prints `t<k>=?` and the harness' own sequential run is the only oracle.
 -/
 open CelmaVerif CelmaVerif.Proto CelmaVerif.Interleave
 
@@ -25,6 +26,8 @@ structure ThreadD where
   args : List ArgD := []
   argv : List String := []
   hasHc : Bool := false
+  help : Bool := false
+  group : Bool := false     -- group thread (handlers owned by the process-wide Groups object): outside the fragment
 deriving Inhabited
 
 structure St where
@@ -186,8 +189,37 @@ def step (s : St) (line : String) : St × String :=
     | some t =>
       if t > 63 then (s, "bad-op") else
       let d := s.get t
-      (s.set t { d with hasHc := true }, "ok")
+      (s.set t { d with hasHc := true, help := true }, "ok")
     | none => (s, "bad-op")
+  | ["bracket", _, _] =>
+    -- `bracket t=<k> at=<n>`: where the thread calls addBracketHandler; no effect on a command line without brackets
+    match (kv toks "t").bind String.toNat?, kv toks "at" with
+    | some t, some a =>
+      if t > 63 || a.isEmpty || a.length > 3 || !a.toList.all Char.isDigit then (s, "bad-op") else (s, "ok")
+    | _, _ => (s, "bad-op")
+  | "group" :: _ =>
+    -- `group t=<k> handlers=<1..8> loops=<1..99> [brackets=<0..handlers-1>] [remove=each|all]`
+    let num (key : String) (lo hi : Nat) : Option (Option Nat) :=   -- none = malformed, some none = absent
+      match kv toks key with
+      | none => some none
+      | some v =>
+        if v.isEmpty then some none
+        else if v.length > 2 || !v.toList.all Char.isDigit then none
+        else match v.toNat? with
+          | some x => if x < lo || x > hi then none else some (some x)
+          | none => none
+    let keysOk := (toks.drop 1).all fun w =>
+      ["t", "handlers", "loops", "brackets", "remove"].contains ((w.splitOn "=").headD "")
+    match (kv toks "t").bind String.toNat?, num "handlers" 1 8, num "loops" 1 99 with
+    | some t, some (some hn), some (some _) =>
+      let rm := (kv toks "remove").getD "each"
+      if t > 63 || !keysOk || (rm != "each" && rm != "all") then (s, "bad-op") else
+      match num "brackets" 0 (hn - 1) with
+      | none => (s, "bad-op")
+      | some _ =>
+        let d := s.get t
+        (s.set t { d with hasHc := true, group := true }, "ok")
+    | _, _, _ => (s, "bad-op")
   | "argv" :: tt :: words =>
     match (kv [tt] "t").bind String.toNat? with
     | some t =>
@@ -198,7 +230,9 @@ def step (s : St) (line : String) : St × String :=
   | "run" :: _ =>
     match (kv toks "n").bind String.toNat? with
     | some n =>
-      if n < 1 || n > 64 || s.threads.any (·.1 ≥ n) then (s, "bad-op") else
+      if n < 1 || n > 64 || s.threads.any (·.1 ≥ n) then (s, "bad-op")
+      else if s.threads.any (fun p => p.2.group && p.2.help) || (s.threads.filter (·.2.group)).length > 1 then (s, "bad-op")
+      else
       let parts := (List.range n).map fun t => s!"t{t}={expectThread t (s.get t)}"
       (s, s!"ok threads={n} " ++ " ".intercalate parts)
     | none => (s, "bad-op")
